@@ -168,7 +168,7 @@ class WorkerPool:
 
     def __init__(self, harness, nworkers=None, hashseed=0, timeout=120, extra_env=None):
         self.harness = harness
-        self.n = nworkers or min(16, os.cpu_count() or 4)
+        self.n = nworkers or int(os.environ.get("VERIF_WORKERS") or 0) or min(16, os.cpu_count() or 4)
         self.hashseed = hashseed
         self.timeout = timeout
         self.extra_env = extra_env
